@@ -55,6 +55,8 @@ form('addassign-ident-lit', { ops: ['+='] }, F => `${F.loc()} += ${F.lit()}`)
 form('addassign-ident-call', { ops: ['+='] }, F => `${F.loc()} += ${F.f()}`)
 form('addassign-ident-ident', { ops: ['+='] }, F => `${F.loc()} += ${F.loc()}`)
 form('addassign-ident-nested', { ops: ['+=', '+'] }, F => `${F.loc()} += ${F.s()} + ${F.f()}`)
+form('addassign-ident-numsum', { ops: ['+='] }, F => `${F.loc()} += 7 + 3`)
+form('addassign-ident-litsum-mixed', { ops: ['+='] }, F => `${F.loc()} += 1 + 2 + 'x${F.id()}'`)
 form('addassign-ident-self-alias', { ops: ['+='] }, F => { const a = F.loc(); return `${a} += (${a} = ${F.s()}, ${F.f()})` })
 form('addassign-localobj-member', { ops: ['+='] }, F => `${F.loc(F.o())}.p += ${F.s()}`)
 form('addassign-this-member', { ops: ['+='], needs: 'this' }, F => `this.p${F.id()} += ${F.s()}`)
@@ -242,6 +244,7 @@ function build (pl, fm, opts = {}) {
   const F = new Fresh()
   const E = fm.f(F)
   const strict = !!opts.strict && !pl.sloppy && !fm.sloppy
+  if (pl.sloppy || fm.sloppy) opts = Object.assign({}, opts, { module: false })
   const body = pl.p(E)
   const helpers = []
   if (F.needAlone) helpers.push('function aloneMethod(x, y) { return w.id9(x) }')
